@@ -68,7 +68,7 @@ func newTWorld(limit uint64) *tworld {
 			if t, ok := tw.goids.Load(goid()); ok {
 				tw.events <- event{tid: t.(int), kind: "wait"}
 			}
-		}, nil)
+		}, nil, func() { tw.rebuilt++ })
 	}
 	return tw
 }
@@ -190,8 +190,9 @@ func (tw *tworld) act(a string) bool {
 		tw.emit("r", fmt.Sprintf("r%s.%d", vh.B(b), sz))
 	case a == "C":
 		st := &cache.CleanStat{}
+		before := tw.rebuilt
 		if tw.cl.Cleanup(st) {
-			tw.emit("C", fmt.Sprintf("c1.%d.%d.%d.%d", st.SizeToClean, st.GensCleaned, st.BytesReleased, st.BucketsCleaned))
+			tw.emit("C", fmt.Sprintf("c1.%d.%d.%d.%d.%d", st.SizeToClean, st.GensCleaned, st.BytesReleased, st.BucketsCleaned, tw.rebuilt-before))
 		} else {
 			tw.emit("C", "c0.0.0")
 		}
@@ -380,12 +381,8 @@ func runTrace(limit uint64, actions []string) (req, impl string, viol *vh.Violat
 	// quiescent: the accounting and management clauses must hold
 	tw.checkQuiescent()
 	if tw.viol != nil && tw.viol.Class == "accounted-size-differs-from-live-entries" && tw.cause != "" {
-		tw.viol.Class = tw.cause
-		tw.viol.Site = map[string]string{
-			"release-during-load":           "cache/cache.go:Release",
-			"recover-deletes-foreign-entry": "cache/cache.go:recover",
-			"save-into-delisted-generation": "cache/cache.go:save",
-		}[tw.cause]
+		// a hint only: the schedule contains a pattern that broke the accounting before /repo commit b331fc5
+		tw.viol.What += " (schedule contains: " + tw.cause + ")"
 	}
 	req = fmt.Sprintf("trace %d %d %s", limit, tw.entrySize(), vh.JoinStrs(tw.labels, ";"))
 	impl = fmt.Sprintf("ok %s | %s", vh.JoinStrs(tw.outs, ";"), tw.state())
@@ -407,6 +404,13 @@ func genTrace(r *vh.RNG, n int) (uint64, []string) {
 		acts = append(acts, "n")
 	}
 	val := 0
+	if r.Intn(25) == 0 { // now and then fill one cache beyond the rebuild threshold first
+		fill := r.Range(190, 260)
+		for i := 0; i < fill; i++ {
+			acts = append(acts, fmt.Sprintf("G0.0.%d", 100+i), fmt.Sprintf("F0.%d.%d", i, r.Intn(3)))
+		}
+		n += 2 * fill
+	}
 	for len(acts) < n {
 		x := r.Intn(100)
 		switch {
